@@ -184,7 +184,9 @@ fn decide(h0: &History, out: &mut CaseOut) -> Result<(), Fail> {
                 (None, true) => return fail(format!("run {i}: the run should fail ({:?}) but returned normally", exp.iter().flatten().next())),
                 (Some(p), false) => return fail(format!("run {i}: the run should pass but failed with {p:?}")),
                 (Some(p), true) => {
-                    if !exp.iter().flatten().any(|m| m == p) {
+                    // a portfolio re-raises *a* member's failure or reports it through its own bookkeeping
+                    // assertion: only "fails iff a member fails" is claimed for portfolios
+                    if r.scheds.len() == 1 && !exp.iter().flatten().any(|m| m == p) {
                         return fail(format!("run {i}: caught payload {p:?}, expected one of {:?}", exp.iter().flatten().collect::<Vec<_>>()));
                     }
                     if p.starts_with("assert failed in T") && !p.starts_with("assert failed in T0") {
@@ -255,8 +257,10 @@ fn decide(h0: &History, out: &mut CaseOut) -> Result<(), Fail> {
                 }
             }
             // ---- every emitted schedule reproduces the failure
+            // (the panic hook emits at the moment of the panic; if the panicking task's unwinding reaches further
+            // scheduling points, a second, longer schedule is emitted when the execution ends: the last one counts)
             if r.scheds.len() == 1 {
-                for s in &emitted {
+                for s in emitted.iter().rev().take(1) {
                     let prog = Arc::new(r.prog.clone());
                     let rp = match catch_unwind(AssertUnwindSafe(|| ReplayScheduler::new_from_encoded(s))) {
                         Ok(rp) => rp,
@@ -307,7 +311,7 @@ fn run_chunk(ctx: &Ctx) -> ChunkResult {
     let mut res = ChunkResult::default();
     let tier = ctx.tier;
     let strat = (vec(run_strategy(tier), 1..=3), prop::bool::weighted(0.3)).prop_map(|(runs, threads)| History { runs, threads });
-    run_prop(ctx, "C12", "failure_history", 1, tier.pick(14, 60), strat, &mut res, |c: &History| serde_json::to_value(c).unwrap(), |c: &History, out: &mut CaseOut| decide(c, out));
+    run_prop(ctx, "C12", "failure_history", 1, tier.pick(40, 160), strat, &mut res, |c: &History| serde_json::to_value(c).unwrap(), |c: &History, out: &mut CaseOut| decide(c, out));
     res
 }
 
